@@ -490,7 +490,7 @@ package meta
 //@   ensures result2 ==> at <= result0 && result0 <= result1 && result1 <= len(haystack)
 //@ func (*Engine).findIndicesBoundedBacktrackerAtWithState
 //@   props C02 C07
-//@   requires leafOK(e) && state != nil && state.pikevm != nil && (e.boundedBacktracker != nil ==> stampsOK(state.backtracker)) && 0 <= at && at <= len(haystack) && len(haystack) <= 140737488355328
+//@   requires leafOK(e) && pvStateLink(e, state) && (e.boundedBacktracker != nil ==> stampsOK(state.backtracker)) && 0 <= at && at <= len(haystack) && len(haystack) <= 140737488355328
 //@   modifies @searchState, e.asciiBoundedBacktracker.internalState.*
 //@   ensures result2 ==> at <= result0 && result0 <= result1 && result1 <= len(haystack)
 //@ func (*Engine).findIndicesBoundedBacktracker
